@@ -94,8 +94,8 @@ theorem analyzeAll_exact {g : Game P M} (hg : GameOK g) (hb : EvalBounded g) {cf
 model really returns a value there (heap of 5, `Depth` 4: the win is found at depth 3, value `WinBase`,
 and the deepening loop stops there) -/
 example : GameOK Toy.game ∧ EvalBounded Toy.game ∧ Precise Toy.cfg.opts ∧ NoCancel (Oracle.quiet : Oracle Nat) ∧
-    OrderOK (Oracle.quiet : Oracle Nat) ∧ (∀ d p, Live Toy.game d p) ∧ EvalOK Toy.game ∧ HashInj Toy.game :=
-  ⟨Toy.gameOK, Toy.evalBounded, Toy.cfg_precise, Toy.quiet_nc, Toy.quiet_order, Toy.live, Toy.evalOK, Toy.hashInj⟩
+    OrderOK (Oracle.quiet : Oracle Nat) ∧ (∀ d p, Live Toy.game d p) ∧ EvalOK Toy.game ∧ HashOK Toy.game :=
+  ⟨Toy.gameOK, Toy.evalBounded, Toy.cfg_precise, Toy.quiet_nc, Toy.quiet_order, Toy.live, Toy.evalOK, Toy.hashInj.ok⟩
 
 example : (match analyze Toy.game Toy.cfg Oracle.quiet 5 (Eng.new Toy.game Toy.cfg) with
     | .ok ((ms, v, st), _) => some (ms, v, st.depth)
@@ -106,8 +106,9 @@ example : (match analyze Toy.game Toy.cfg Oracle.quiet 5 (Eng.new Toy.game Toy.c
 
 `Win g p` / `Loss g p`: some depth-limited negamax value of `p` is above `WinThreshold` / below `-WinThreshold`
 — with an evaluation that is decisive only for finished games (`EvalOK`, C18) this is "the mover has a forced win /
-is lost against best play".  `HashInj g` is the `NoCollision` hypothesis (distinct positions, distinct 64-bit
-hashes); `TableSound g s`: every entry of the table of `s` is a true bound, in the three-valued sense, for every
+is lost against best play".  `HashOK g` is the `NoCollision` hypothesis in the form the proofs use it (positions with the same
+64-bit hash are alike for the three-valued verdicts at every depth; implied by `HashInj g`: distinct positions, distinct
+hashes — `HashInj.ok` — but, unlike `HashInj`, satisfiable for Tak, whose hash ignores the ply counter); `TableSound g s`: every entry of the table of `s` is a true bound, in the three-valued sense, for every
 position that would find it.  `TableGood g s` adds the depth clause used by `verdict_complete`. -/
 
 /-- **`verdict_sound`**: run any history of `Analyze` calls on one engine — any positions (related, repeated,
@@ -115,14 +116,14 @@ unrelated), any table size from one entry up (or none), every call with its own 
 pattern, starting from a new engine — in a precise configuration.  Every reported value above `WinThreshold` is a
 real forced win of the position analysed, every value below `-WinThreshold` a real forced loss.  (The intermediate
 invariant, `analyze_sound`, also covers engines whose table was filled by other means, as long as it is sound.) -/
-theorem verdict_sound {g : Game P M} (hg : GameOK g) (he : EvalOK g) (hinj : HashInj g)
+theorem verdict_sound {g : Game P M} (hg : GameOK g) (he : EvalOK g) (hinj : HashOK g)
     {cfg : Cfg} (hpr : Precise cfg.opts) (h : History P M) (hord : ∀ x ∈ h, OrderOK x.2) :
     Sat (runCalls g cfg h (Eng.new g cfg)) (fun x =>
       ∀ y ∈ x.1, (y.2 > Facts.winThreshold → Win g y.1) ∧ (y.2 < -Facts.winThreshold → Loss g y.1)) :=
   (runCalls_sound hg he hinj hpr h (Eng.new g cfg) hord (tableSound_new cfg)).mono (fun _ hx => hx.2)
 
 /-- one `Analyze` on an engine whose table is sound: the table stays sound and the verdict is sound -/
-theorem analyze_sound {g : Game P M} (hg : GameOK g) (he : EvalOK g) (hinj : HashInj g)
+theorem analyze_sound {g : Game P M} (hg : GameOK g) (he : EvalOK g) (hinj : HashOK g)
     {cfg : Cfg} (hpr : Precise cfg.opts) {o : Oracle M} (hord : OrderOK o) (p : P) (s : Eng M)
     (hts : TableSound g s) :
     Sat (analyze g cfg o p s) (fun x => TableSound g x.2 ∧
@@ -137,7 +138,7 @@ mover within the depth the call reports — `negamax` at that depth is above `Wi
 the reported value says so.
 
 Against the earlier `verdict_complete_statement` the theorem names its hypotheses: the ones of `verdict_sound`
-(`GameOK`, `EvalOK`, `HashInj`, `Precise`, `OrderOK`), monotone cancel oracles in the history (a non-monotone
+(`GameOK`, `EvalOK`, `HashOK`, `Precise`, `OrderOK`), monotone cancel oracles in the history (a non-monotone
 "flag" would let an aborted subtree's placeholder value 0 reach the table), and `g.over p = false` (`Analyze` of a
 finished position searches nothing and reports value 0 at depth 0, cancelled).
 
@@ -146,7 +147,7 @@ value that is not a win excludes a forced win within the entry's depth, a lower/
 excludes a forced loss within it; decisive exact entries are used at any depth, which is sound by `verdict_sound`'s
 invariant and complete because a lost position is never won).  `Search.search_good` proves this for uncancelled
 searches, `Search.search_keeps` that a search cancelled at any point still leaves only such entries. -/
-theorem verdict_complete {g : Game P M} (hg : GameOK g) (he : EvalOK g) (hinj : HashInj g)
+theorem verdict_complete {g : Game P M} (hg : GameOK g) (he : EvalOK g) (hinj : HashOK g)
     {cfg : Cfg} (hpr : Precise cfg.opts) (h : History P M) (hord : ∀ x ∈ h, OrderOK x.2)
     (hmono : ∀ x ∈ h, x.2.Monotone) (p : P) (hov : g.over p = false) {o : Oracle M} (hnc : NoCancel o)
     (hord' : OrderOK o) (rs : List (P × Int)) (s : Eng M) (r : List M × Int × Stats) (s' : Eng M)
@@ -158,7 +159,7 @@ theorem verdict_complete {g : Game P M} (hg : GameOK g) (he : EvalOK g) (hinj : 
 /-- one uncancelled `Analyze` of an unfinished position on an engine whose table is good (sound and covering, e.g.
 filled by other means): the table stays good, and a value that is not a win (not a loss) excludes a forced win
 (loss) within the reported depth -/
-theorem analyze_complete {g : Game P M} (hg : GameOK g) (he : EvalOK g) (hinj : HashInj g)
+theorem analyze_complete {g : Game P M} (hg : GameOK g) (he : EvalOK g) (hinj : HashOK g)
     {cfg : Cfg} (hpr : Precise cfg.opts) {o : Oracle M} (hnc : NoCancel o) (hord : OrderOK o) (p : P)
     (hov : g.over p = false) (s : Eng M) (hts : TableGood g s) :
     Sat (analyze g cfg o p s) (fun x => TableGood g x.2 ∧
@@ -171,7 +172,7 @@ example : TableGood Toy.game (Eng.new Toy.game { Toy.cfg with tableEntries := so
   tableGood_new Toy.evalOK _
 
 /-- a cancelled (or any other) `Analyze` keeps the table good -/
-theorem analyze_keeps_table {g : Game P M} (hg : GameOK g) (he : EvalOK g) (hinj : HashInj g)
+theorem analyze_keeps_table {g : Game P M} (hg : GameOK g) (he : EvalOK g) (hinj : HashOK g)
     {cfg : Cfg} (hpr : Precise cfg.opts) {o : Oracle M} (hm : o.Monotone) (hord : OrderOK o) (p : P) (s : Eng M)
     (hts : TableGood g s) : Sat (analyze g cfg o p s) (fun x => TableGood g x.2) :=
   analyze_keeps hg he hinj hpr hm hord p s hts
